@@ -192,6 +192,29 @@ TABLE.update({
  "C17-P": ("sim", "go test -vet=off -count=1 -run TestDemoC17P ./sim/"),
 })
 
+TABLE.update({
+ "C01-Q": ("data", "go test -vet=off -count=1 -run TestC01Q ./data/"),
+ "C01-R": ("data/cdata", "go test -vet=off -count=1 -run TestC01R ./data/cdata/"),
+ "C02-Q": ("data/cdata", "go test -vet=off -count=1 -run TestC02Q ./data/cdata/"),
+ "C02-R": ("data/cdata", "go test -vet=off -count=1 -run TestC02R ./data/cdata/"),
+ "C03-Q": ("data/cdata", "go test -vet=off -count=1 -run TestC03Q ./data/cdata/"),
+ "C03-R": ("data/cdata", "go test -vet=off -count=1 -run TestC03R ./data/cdata/"),
+ "C04-Q": ("models", "go test -vet=off -count=1 -run TestC04Q ./models/"),
+ "C04-R": ("models", "go test -vet=off -count=1 -run TestC04R ./models/"),
+ "C05-Q": ("models/storage", "go test -vet=off -count=1 -run TestC05Q ./models/storage/"),
+ "C05-R": ("models/conversion", "go test -vet=off -count=1 -run TestC05R_ScalingForeignOutputs ./models/conversion/"),
+ "C06-Q": ("models/rr", "go test -vet=off -count=1 -run TestC06Q ./models/rr/"),
+ "C06-R": ("libopenwater", "go test -vet=off -count=1 -run TestC06R ./libopenwater/"),
+ "C07-Q": ("cmd/ow-sim", "go1.26.8 test -modfile=%(stub)s -vet=off -count=1 -run TestDemoLinkCarryingNaN ./cmd/ow-sim/"),
+ "C07-R": ("cmd/ow-sim", "go1.26.8 test -modfile=%(stub)s -vet=off -count=1 -timeout 120s -run TestDemoEmptyMiddleGeneration ./cmd/ow-sim/"),
+ "C08-Q": ("io", "go1.26.8 test -modfile=%(stub)s -vet=off -count=1 -run TestC08QDemo ./io/"),
+ "C08-R": ("io", "go1.26.8 test -modfile=%(stub)s -vet=off -count=1 -run TestC08RDemo ./io/"),
+ "C14-Q": ("models/climate", "go test -vet=off -count=1 -run TestC14QDemo ./models/climate/"),
+ "C14-R": ("models/storage", "go test -vet=off -count=1 -run TestC14RDemo ./models/storage/"),
+ "C17-Q": ("sim", "go test -vet=off -count=1 -run TestC17QFirstEntryWins ./sim/"),
+ "C17-R": ("sim", "go test -vet=off -count=1 -run TestC17RAlwaysAnswers ./sim/"),
+})
+
 def sh(cmd, cwd=WT):
     r = subprocess.run(cmd, shell=True, cwd=cwd, env=ENV, capture_output=True, text=True)
     return r.returncode, (r.stdout + r.stderr)[-1500:]
